@@ -80,7 +80,10 @@ class PureEval:
 		return node.value
 
 	def p_Name(self, node):
-		return self.deref(self.lookup(node.id))
+		v = self.lookup(node.id)
+		if isinstance(v, Ref) and isinstance(self.deref(v), Record):
+			return v          # records keep their identity (fields are read through attr())
+		return self.deref(v)
 
 	def p_Tuple(self, node):
 		return tuple(self.ev(e) for e in node.elts)
@@ -252,6 +255,12 @@ class PureEval:
 					return SInt(v.length)
 				if isinstance(v, SStr):
 					return SInt(z3.Length(v.term))
+				from .interp import SEnumerate, SZip
+				if isinstance(v, SEnumerate):
+					inner = self.deref(v.inner)
+					return SInt(inner.length) if isinstance(inner, (SArr, SSeq)) else len(inner)
+				if isinstance(v, SZip):
+					return SInt(v.length)
 				h = self.eng.lib.get('pure_len:' + type(v).__name__)
 				if h is not None:
 					return h(self, v)
@@ -276,12 +285,29 @@ class PureEval:
 		names = [vars_node.id] if isinstance(vars_node, ast.Name) else [e.id for e in vars_node.elts]
 		saved = dict(self.bound)
 		zs = []
+		qtypes = self.eng.specns.get('__qtypes__', {})
 		for n in names:
+			if n in qtypes:
+				v = qtypes[n].fresh(n)       # a bound variable of a declared non-integer sort
+				zs.append(v.term)
+				self.bound[n] = v
+				continue
 			z = z3.Int(fresh_name(n))
 			zs.append(z)
 			self.bound[n] = SInt(z)
 		try:
-			parts = [self.tr(self.ev(a)) for a in node.args[1:]]
+			parts = [self.tr(self.ev(a)) for a in node.args[1:-1]]
+			rng = mk_and(*parts)
+			empty = rng is False
+			if not empty and not isinstance(rng, bool):
+				sv = z3.Solver()
+				sv.set('timeout', 200)
+				sv.add(rng)
+				empty = sv.check() == z3.unsat
+			if empty:
+				# the range is empty (e.g. an index below the length of an empty list): the body need not even be well defined
+				return True if kind == 'forall' else False
+			parts.append(self.tr(self.ev(node.args[-1])))
 		finally:
 			self.bound = saved
 		if kind == 'forall':
